@@ -142,6 +142,11 @@ class Ctx:
                 i = n["args"][0]
             elif k == "cast":
                 i = n["sub"]
+            elif k == "call" and n["ck"] == "func" and strip_targs(n.get("cname") or "").split("<")[0] in [x.split("<")[0] for x in NONMUTATING_FREE] and n["args"]:
+                i = n["args"][0]          # get<k>(x) = ... writes into x
+            elif k == "call" and n["ck"] == "method" and n.get("obj") is not None and not n.get("arrow") and \
+                    strip_targs(n.get("cname") or "").split("::")[-1] in STD_ACCESSORS + EIGEN_ACCESSORS:
+                i = n["obj"]              # x.at(i) = ..., x.front() = ...
             else:
                 return None
         return None
